@@ -241,9 +241,35 @@ func (e *Engine) registerJSON() {
 				if !ok {
 					return IfaceV{}
 				}
-				// the object may as well be one another goroutine has put back: what is
-				// checked is that nothing uses it after this request puts it back
-				return p.callValue(fv, nil, site)
+				// the object may as well be one another goroutine has put back: nothing may
+				// use it after this request puts it back, and (maps) what a previous user may
+				// have left in it - one hypothetical entry with an arbitrary key - must not be
+				// read by this request if this request, in turn, puts the map back non-empty
+				r := p.callValue(fv, nil, site)
+				if iv, ok := r.(IfaceV); ok && iv.T != nil {
+					// one designated Get per path receives the leftover (which one is a choice)
+					if mv, ok := iv.V.(MapV); ok && mv.M != nil && p.side["poolLeftovers"] == true && !p.staleGiven && p.choose("pool-leftover-here", 2) == 1 {
+						p.staleGiven = true
+						if mt, ok := iv.T.Underlying().(*types.Map); ok {
+							if kb, ok := mt.Key().Underlying().(*types.Basic); ok && kb.Kind() == types.String {
+								p.nvar++
+								key := p.freshStr(fmt.Sprintf("pool_stale_key_%d", p.nvar), 6)
+								var val Value
+								if typeFullName(mt.Elem()) == "encoding/json.RawMessage" {
+									val = BytesV{S: constStr("\"stale\"")}
+								} else {
+									val = p.zero(mt.Elem())
+								}
+								mv.M.Entries = append(mv.M.Entries, &MapEntry{K: key, V: val, Stale: true})
+								if p.pooledMaps == nil {
+									p.pooledMaps = map[*MapObj]*pooledState{}
+								}
+								p.pooledMaps[mv.M] = &pooledState{pool: objName(pv.Obj)}
+							}
+						}
+					}
+				}
+				return r
 			}
 		}
 		p.unsupported("sync.Pool without New field")
@@ -251,6 +277,17 @@ func (e *Engine) registerJSON() {
 	}
 	I["(*sync.Pool).Put"] = func(p *Path, a []Value, site ssa.Instruction) Value {
 		if iv, ok := a[1].(IfaceV); ok {
+			if mv, ok := iv.V.(MapV); ok && mv.M != nil {
+				own := 0 // what THIS request leaves behind (the hypothetical leftover does not count)
+				for _, e := range mv.M.Entries {
+					if !e.Stale {
+						own++
+					}
+				}
+				if st := p.pooledMaps[mv.M]; st != nil && st.hit && own > 0 {
+					p.writes = append(p.writes, fmt.Sprintf("pool-state: a map taken from %s is read without being cleared and put back non-empty at %s: entries of one request reach another", st.pool, p.posOf(site)))
+				}
+			}
 			if pv, ok := iv.V.(PtrV); ok && pv.Obj != nil {
 				if p.released == nil {
 					p.released = map[*Object]bool{}
